@@ -104,7 +104,7 @@ type Report struct {
 	FaultPre           *facts.State
 	FaultPost          *facts.State
 	FaultCycle         uint64
-	NotesAB            int // disagreements between reference truth (A) and fresh-engine truth (B)
+	NotesAB            int   // disagreements between reference truth (A) and fresh-engine truth (B)
 	PriorErr           error // result of the earlier call on the same instance (Case.PriorInit)
 }
 
